@@ -550,6 +550,9 @@ class ObjFn(Stmts):
 
     # ---------------- statements
     def block(self, stmts, env, k, live):
+        if stmts and isinstance(stmts[0], ast.Continue):
+            if not self.loop_final: bad(stmts[0], '`continue` outside a translated loop')
+            return self.loop_final[-1](env)
         if stmts and isinstance(stmts[0], ast.AugAssign) and isinstance(stmts[0].target, ast.Attribute):
             # obj.attr op= e   is   obj.attr = obj.attr op e
             s0 = stmts[0]
@@ -632,7 +635,54 @@ class ObjFn(Stmts):
                 return self.try_core(s2, env, go, live)
         return self.try_core(s, env, go, live)
 
+    def try_cps(self, s, env, go, live):
+        """`try: A except C1: H1 except C2: H2 [else: E]` followed by the rest R, where every handler ends in raise / continue:
+        `PyKit.tryElse A' [(C1, H1'), (C2, H2')] (fun vars => E'; R')` — the handlers are in tail position"""
+        for h in s.handlers:
+            if not isinstance(h.type, (ast.Name, ast.Attribute)) or self.caught_of(h.type) is None: bad(s, f'except clause {ast.unparse(h.type) if h.type else ""}')
+            if h.name is not None:
+                # `as exc`: only as message material of a raise
+                for n in ast.walk(ast.Module(body=h.body, type_ignores=[])):
+                    if isinstance(n, ast.Name) and n.id == h.name and not any(isinstance(r, ast.Raise) and any(x is n for x in ast.walk(r)) for r in ast.walk(ast.Module(body=h.body, type_ignores=[]))):
+                        bad(s, f'{h.name} is used outside a raise')
+        if contains(s.body, (ast.Return, ast.Continue, ast.Break)): bad(s, '`return` / `continue` inside the protected block')
+        rest_live = read_names(s.orelse) | live
+        vars_ = self.join_vars([s.body], env, rest_live)
+        if self.STATE in vars_ and False: pass
+        ends = []
+        def probe(env2):
+            ends.append(env2); return ('raw', '.ok default')
+        saved = self.ntmp
+        self._seq(s.body, dict(env), probe, set(vars_))
+        self.ntmp = saved
+        types = []
+        for v in vars_:
+            ty = None
+            for en in ends:
+                if v not in en: bad(s, f'{v} may be unbound after the protected block')
+                ty = en[v] if ty is None else self.T.join(ty, en[v], s)
+            types.append(ty if ty is not None else env.get(v, self.T.NONE))
+        def final(env2):
+            return ('raw', '.ok ' + tuple_pat([self.T.coerce(self.lvar(v), env2[v], t, s) for v, t in zip(vars_, types)]))
+        body = self._seq(s.body, dict(env), final, set(vars_))
+        handlers = [(self.caught_of(h.type), self._seq(h.body, dict(env), None, live)) for h in s.handlers]
+        env2 = dict(env)
+        for v, t in zip(vars_, types): env2[v] = t
+        rest = self.block(list(s.orelse), env2, go, live)
+        return ('trycps', body, self.T.tuple_type(types), handlers, tuple_pat([self.lvar(v) for v in vars_]), rest)
+
+    def caught_of(self, t):
+        """the Lean predicate of an `except <class>` clause, or None"""
+        name = ast.unparse(t)
+        return self.CAUGHT.get(name)
+
     def try_core(self, s, env, go, live):
+        if not s.finalbody and s.handlers and all(self.terminates(h.body) for h in s.handlers) and \
+           (s.orelse or any(contains(h.body, (ast.Continue,)) for h in s.handlers)):
+            return self.try_cps(s, env, go, live)
+        return self.try_core0(s, env, go, live)
+
+    def try_core0(self, s, env, go, live):
         """pytr.core's `try_`, except that the protected block may assign attributes of the state when the handler ends in `raise`
         (then the state at the time of the exception is never looked at)"""
         if s.orelse: bad(s, 'try/else')
@@ -664,10 +714,75 @@ class ObjFn(Stmts):
         ty = self.T.tuple_type(types)
         return joinc(tuple_pat([self.lvar(v) for v in vars_]), ('tryexpr', trees[0], self.CAUGHT[h.type.id], trees[1], ty), ty, go(env2))
 
+    # ---- which variables does a loop carry from one iteration to the next?
+    @staticmethod
+    def _ends(stmts):
+        for st in stmts:
+            if isinstance(st, (ast.Raise, ast.Return, ast.Continue, ast.Break)): return True
+            if isinstance(st, ast.If) and st.orelse and ObjFn._ends(st.body) and ObjFn._ends(st.orelse): return True
+        return False
+
+    @staticmethod
+    def rbw(stmts, written=frozenset()):
+        """(names that may be read before the statements themselves assign them, names definitely assigned when control falls
+        off the end) — statement by statement, so that a variable assigned and then read inside one iteration of a nested loop is
+        not taken for a loop-carried one"""
+        reads, written = set(), set(written)
+        def names(e):
+            return {n.id for n in ast.walk(e) if isinstance(n, ast.Name) and isinstance(n.ctx, ast.Load)} if e is not None else set()
+        def targets(t):
+            out = set()
+            for n in ast.walk(t):
+                if isinstance(n, ast.Name) and isinstance(n.ctx, ast.Store): out.add(n.id)
+            return out
+        for st in stmts:
+            if isinstance(st, ast.Assign):
+                reads |= names(st.value) - written
+                for t in st.targets:
+                    if isinstance(t, ast.Name): pass
+                    else: reads |= {n.id for n in ast.walk(t) if isinstance(n, ast.Name) and isinstance(n.ctx, ast.Load)} - written
+                for t in st.targets:
+                    if isinstance(t, (ast.Name, ast.Tuple, ast.List)): written |= targets(t)
+            elif isinstance(st, ast.AugAssign):
+                reads |= (names(st.value) | names(st.target) | targets(st.target)) - written
+            elif isinstance(st, ast.If):
+                reads |= names(st.test) - written
+                r1, w1 = ObjFn.rbw(st.body, written)
+                r2, w2 = ObjFn.rbw(st.orelse, written)
+                reads |= r1 | r2
+                e1, e2 = ObjFn._ends(st.body), ObjFn._ends(st.orelse)
+                written = (w2 if e1 and not e2 else w1 if e2 and not e1 else (w1 & w2))
+            elif isinstance(st, ast.For):
+                reads |= names(st.iter) - written
+                r1, _ = ObjFn.rbw(st.body, written | targets(st.target))
+                reads |= r1
+            elif isinstance(st, ast.Try):
+                r1, w1 = ObjFn.rbw(st.body, written)
+                reads |= r1
+                for h in st.handlers:
+                    rh, _ = ObjFn.rbw(h.body, written)
+                    reads |= rh
+                r2, w2 = ObjFn.rbw(st.orelse, w1)
+                reads |= r2
+                if all(ObjFn._ends(h.body) for h in st.handlers) and not st.finalbody: written = w2
+            else:
+                reads |= names(st) - written
+        return reads, written
+
+    def loop_vars(self, s, env, live, targets):
+        assigned = assigned_names(s.body, self.writes_map)
+        carried = self.rbw(s.body, frozenset(targets))[0] | live
+        vars_ = sorted(v for v in assigned if v in carried and v not in targets)
+        for v in vars_:
+            if v not in env: bad(s, f'{v} is assigned in the loop and used outside one iteration but not bound before the loop')
+        for t in targets:
+            if t in live and t in env: bad(s, 'loop variable used after the loop')
+        return vars_
+
     # ---- for loops over lists (no break / continue / return inside)
     def for_(self, s, env, go, live):
         if s.orelse: bad(s, 'for/else')
-        if contains(s.body, (ast.Return, ast.Break, ast.Continue)): bad(s, 'return/break/continue inside for')
+        if contains(s.body, (ast.Return, ast.Break)): bad(s, 'return/break inside for')
         B = []
         xs, xty = self.expr(s.iter, env, B)
         if xty[0] != 'list': bad(s, f'for over a value of type {xty}')
@@ -682,15 +797,27 @@ class ObjFn(Stmts):
             bad(s, 'loop target')
         vars_ = self.loop_vars(s, env, live, targets)
         vars_ = sorted(set(vars_) | (set(self.join_vars([s.body], env, live | set(vars_))) - set(targets)))
+        # whatever the rest of the function reads and an iteration may assign is carried by the loop too
+        vars_ = sorted(set(vars_) | {v for v in assigned_names(s.body, self.writes_map) if v in live and v in env and v not in targets})
         for v in vars_:
             if v not in env: bad(s, f'{v} is assigned in the loop but not bound before it')
         types = [env[v] for v in vars_]
         env_body = dict(env)
         for x, t in zip(targets, ttypes): env_body[x] = t
-        self.check_loop_types(s, env_body, vars_, types)
+        def probe_final(env2):
+            return ('raw', '.ok default')
+        self.loop_final = tuple(self.loop_final) + (probe_final,)
+        try:
+            self.check_loop_types(s, env_body, vars_, types)
+        finally:
+            self.loop_final = self.loop_final[:-1]
         def final(env2):
             return ('raw', '.ok ' + tuple_pat([self.T.coerce(self.lvar(v), env2[v], t, s) for v, t in zip(vars_, types)]))
-        body = self._seq(s.body, env_body, final, set(vars_))
+        self.loop_final = tuple(self.loop_final) + (final,)
+        try:
+            body = self._seq(s.body, env_body, final, set(vars_))
+        finally:
+            self.loop_final = self.loop_final[:-1]
         pat = tuple_pat([self.lvar(v) for v in vars_])
         node = ('foreach', 'PyKit.forEach', atom(xs), epat, pat, body, pat)
         return self.wrap(B, joinc(pat, node, self.T.tuple_type(types), go(dict(env))))
@@ -717,6 +844,64 @@ class ObjFn(Stmts):
                             sig = self.u.methods.get((env[v][1], n.func.attr))
                             if sig is not None and sig.writes and (v in live or v == self.STATE): names.add(v)
         return sorted(names)
+
+    # ---- `continue`: ends the iteration with the loop-carried variables as they are (the innermost loop)
+    loop_final = ()
+
+    def terminates(self, stmts):
+        """every path through the statements ends in raise / return / continue"""
+        for s in stmts:
+            if isinstance(s, (ast.Raise, ast.Return)): return True
+            if isinstance(s, ast.Continue) and self.loop_final: return True
+            if isinstance(s, ast.If) and s.orelse and self.terminates(s.body) and self.terminates(s.orelse): return True
+            if isinstance(s, ast.Try) and not s.finalbody and not s.orelse and self.terminates(s.body) and all(self.terminates(h.body) for h in s.handlers):
+                return True
+        return False
+
+    def if_core(self, s, env, go, live):
+        """pytr.core's `if_` with `self.terminates` (a branch that ends in `continue` takes no part in the join either)"""
+        B = []
+        nt = self.none_test(s.test, env)
+        def mk(then_tree, else_tree):
+            if nt:
+                x, is_not = nt
+                ty = env[x]
+                if ty == self.T.NONE: return else_tree if is_not else then_tree
+                if ty[0] != 'opt': return then_tree if is_not else else_tree
+                none_t, some_t = (else_tree, then_tree) if is_not else (then_tree, else_tree)
+                return ('match', lname(x), [('none', none_t), (f'some {lname(x)}', some_t)])
+            return ('if', c, then_tree, else_tree)
+        e_then, e_else = dict(env), dict(env)
+        if nt and env[nt[0]][0] == 'opt':
+            (e_then if nt[1] else e_else)[nt[0]] = env[nt[0]][1]
+        static = None
+        if nt:
+            ty = env[nt[0]]
+            if ty == self.T.NONE: static = not nt[1]
+            elif ty[0] != 'opt': static = nt[1]
+            c = None
+        else:
+            c = self.cond(s.test, env, B)
+        if static is not None:
+            self.note(f'{self.name} line {s.lineno}: `{ast.unparse(s.test)}` is {static} by typing; the other branch is dropped')
+            return self.block(list(s.body if static else s.orelse), env, go, live)
+        t_then, t_else = self.terminates(s.body), self.terminates(s.orelse)
+        if t_then and t_else:
+            return self.wrap(B, mk(self._seq(s.body, e_then, None, live), self._seq(s.orelse, e_else, None, live)))
+        if t_then:
+            return self.wrap(B, mk(self._seq(s.body, e_then, None, live), self._seq(s.orelse, e_else, go, live)))
+        if t_else:
+            return self.wrap(B, mk(self._seq(s.body, e_then, go, live), self._seq(s.orelse, e_else, None, live)))
+        if contains(s.body + s.orelse, (ast.Return, ast.Break, ast.Continue)):
+            if not self.DUPLICATE_ON_RETURN: bad(s, '`return` / `continue` on some but not all paths of a branch')
+            return self.wrap(B, mk(self._seq(s.body, e_then, go, live), self._seq(s.orelse, e_else, go, live)))
+        vars_ = self.join_vars([s.body, s.orelse], env, live)
+        brs = [lambda k: self._seq(s.body, e_then, k, set(vars_)), lambda k: self._seq(s.orelse, e_else, k, set(vars_))]
+        trees, types, views = self.run_join(brs, env, vars_, s)
+        env2 = dict(env)
+        for v, t in zip(vars_, types): env2[v] = t
+        env2.update(views)
+        return self.wrap(B, joinc(tuple_pat([self.lvar(v) for v in vars_]), mk(trees[0], trees[1]), self.T.tuple_type(types), go(env2)))
 
     def attr_none_test(self, e, env):
         """(object variable, attribute, is_not) if e is `<variable>.<attr> is [not] None` for a record-typed variable"""
@@ -756,13 +941,13 @@ class ObjFn(Stmts):
                 test = ast.copy_location(ast.Compare(left=ast.copy_location(ast.Name(id=alias, ctx=ast.Load()), s), ops=s.test.ops, comparators=s.test.comparators), s.test)
                 s2 = ast.copy_location(ast.If(test=test, body=s.body, orelse=s.orelse), s)
                 env1 = dict(env); env1[alias] = fty; env1[f'#alias:{obj}.{attr}'] = alias
-                keep = terminates(s.body) != terminates(s.orelse)      # exactly one branch continues: its view of the attribute stays valid
+                keep = self.terminates(s.body) != self.terminates(s.orelse)      # exactly one branch continues: its view of the attribute stays valid
                 def go2(env2):
                     if keep: return go(env2)
                     env3 = {k: v for k, v in env2.items() if k != alias and k != f'#alias:{obj}.{attr}'}
                     return go(env3)
-                return ('let', lname(alias), f'{self.lvar(obj)}.{field}', Stmts.if_(self, s2, env1, go2, live))
-        return super().if_(s, env, go, live)
+                return ('let', lname(alias), f'{self.lvar(obj)}.{field}', self.if_core(s2, env1, go2, live))
+        return self.if_core(s, env, go, live)
 
 class ObjStyle(Style):
     """`binds=True`: sequencing is printed as `Except.bind c (fun x => rest)` instead of `match c with | .error e => .error e | .ok x =>
@@ -777,6 +962,13 @@ class ObjStyle(Style):
         if node[0] == 'foreach':
             _, fn, xs, epat, spat, body, init = node
             return [pad + f'{fn} {xs} (fun {epat} {spat} =>'] + render(body, ind + 2, self) + [pad + f'  ) {init}']
+        if node[0] == 'trycps':
+            _, body, ty, handlers, pat, rest = node
+            out = [pad + 'PyKit.tryElse (show Except ' + self.err + ' ' + ty + ' from'] + render(body, ind + 2, self) + [pad + '  ) [']
+            for i, (caught, h) in enumerate(handlers):
+                out += [pad + f'    ({caught},'] + render(h, ind + 3, self) + [pad + '    )' + (',' if i < len(handlers) - 1 else '')]
+            out += [pad + f'  ] (fun {pat} =>'] + render(rest, ind + 1, self) + [pad + ')']
+            return out
         if node[0] == 'xbind':
             _, pat, comp, rest = node
             return [pad + f'Except.bind ({comp}) (fun {pat} =>'] + render(rest, ind + 1, self) + [pad + ')']
@@ -798,6 +990,7 @@ def to_binds(node):
     if k == 'tryexpr': return ('tryexpr', to_binds(node[1]), node[2], to_binds(node[3]), node[4])
     if k == 'forexpr': return ('forexpr', node[1], node[2], node[3], to_binds(node[4]), node[5])
     if k == 'foreach': return ('foreach', node[1], node[2], node[3], node[4], to_binds(node[5]), node[6])
+    if k == 'trycps': return ('trycps', to_binds(node[1]), node[2], [(c, to_binds(h)) for c, h in node[3]], node[4], to_binds(node[5]))
     raise AssertionError(k)
 
 # ----------------------------------------------------------------------------- driver for one function
